@@ -58,11 +58,23 @@ def _stub_case(ctx, rng):
             cases[t] = {"index": sel}
     if not cases:
         cases = {"line": {"index": [net.line.index[0]]}}
-    log = []   # per call: dict(raises, vals per table, ins per table)
+    log = []   # per call: dict(raises, vals per table, ins per table, kw)
     raise_p = rng.choice([0.0, 0.15, 0.4])
+    ins_before = {t: net[t].in_service.values.copy() for t in tabs + ["bus"]}
+    # the outages that must be evaluated, in order: every listed element that is in service in the base net
+    labels_seq = [(t, i) for t, v in cases.items() for i in v["index"] if net[t].at[i, "in_service"]]
+    n_nm1 = len(labels_seq)
+    # options: N-1 evaluations must receive pf_options_nminus1 + kwargs, the N-0 one pf_options + kwargs,
+    # and a recycle argument must never reach the evaluation as anything but False
+    pf0 = rng.choice([None, {"opt_a": 1}, {"opt_a": 1, "opt_b": "x"}])
+    pf1 = rng.choice([None, {"opt_a": 2}, {"opt_c": True}])
+    kw = rng.choice([{}, {}, {"recycle": {"bus_pq": True, "trafo": False, "gen": False}}, {"opt_a": 7}, {"extra": 3}])
+    if rng.random() < 0.15:
+        net.user_pf_options = {"opt_u": 5}
 
-    def stub(n, **kw):
-        rec = {"raises": rng.random() < raise_p and stub.nm1}
+    def stub(n, **kwa):
+        nm1 = len(log) < n_nm1
+        rec = {"raises": rng.random() < raise_p and nm1, "kw": dict(kwa)}
         rec["ins"] = {t: [bool(x) for x in n[t].in_service.values] for t in tabs + ["bus"]}
         rec["vals"] = {t: _gen_vals(rng, n, t) for t in tabs + ["bus"]}
         log.append(rec)
@@ -72,22 +84,44 @@ def _stub_case(ctx, rng):
             n["res_" + t] = pd.DataFrame({"loading_percent": rec["vals"][t]}, index=n[t].index)
         n["res_bus"] = pd.DataFrame({"vm_pu": rec["vals"]["bus"]}, index=n.bus.index)
 
-    stub.nm1 = True
-    ins_before = {t: net[t].in_service.values.copy() for t in tabs + ["bus"]}
-    # the N-0 call is the last one; it must not raise
-    n_nm1 = sum(1 for t, v in cases.items() for i in v["index"] if net[t].at[i, "in_service"])
-
-    def stub2(n, **kw):
-        stub.nm1 = len(log) < n_nm1
-        return stub(n, **kw)
-
     from pandapower.contingency import run_contingency
-    res = run_contingency(net, cases, contingency_evaluation_function=stub2)
+    callkw = dict(kw)
+    if pf0 is not None:
+        callkw["pf_options"] = pf0
+    if pf1 is not None:
+        callkw["pf_options_nminus1"] = pf1
+    res = run_contingency(net, cases, contingency_evaluation_function=stub, **callkw)
     ins_after = {t: net[t].in_service.values.copy() for t in tabs + ["bus"]}
     restored = all((ins_before[t] == ins_after[t]).all() for t in ins_before)
+    # ---- protocol checks on the evaluation calls themselves (spec: each listed in-service element is outaged
+    #      alone, once, with the right options; then one N-0 evaluation)
+    proto_bad = []
+    if len(log) != n_nm1 + 1:
+        proto_bad.append("%d evaluations were made, expected %d N-1 cases + the N-0 case" % (len(log), n_nm1))
+    else:
+        user = dict(getattr(net, "user_pf_options", {}) or {})
+        exp0 = {k: v for k, v in (pf0 if pf0 is not None else user).items() if k not in kw}
+        exp1 = {k: v for k, v in (pf1 if pf1 is not None else user).items() if k not in kw}
+        kwx = dict(kw)
+        if "recycle" in kwx:
+            kwx["recycle"] = False
+        for k, (lab, rec) in enumerate(zip(labels_seq + [None], log)):
+            exp_ins = {t: [bool(x) for x in ins_before[t]] for t in tabs + ["bus"]}
+            if lab is not None:
+                exp_ins[lab[0]][list(net[lab[0]].index).index(lab[1])] = False
+            if rec["ins"] != exp_ins:
+                proto_bad.append("evaluation #%d (%s) ran on in_service flags that are not the base net with exactly that outage" % (k, lab))
+                break
+            expkw = dict(exp1 if lab is not None else exp0, **kwx)
+            if rec["kw"] != expkw:
+                proto_bad.append("evaluation #%d (%s) received options %r, expected %r" % (k, lab, rec["kw"], expkw))
+                break
+    if proto_bad:
+        desc = {"cases": {t: [int(i) for i in v["index"]] for t, v in cases.items()},
+                "tables": {t: [int(i) for i in net[t].index] for t in tabs}, "call": {k: repr(v) for k, v in callkw.items()},
+                "log": [{"raises": r["raises"], "ins": r["ins"], "kw": {k: repr(v) for k, v in r["kw"].items()}} for r in log]}
+        return None, None, desc, restored, True, True, proto_bad
     # ---- model input
-    labels_seq = [(t, i) for t, v in cases.items() for i in v["index"] if net[t].at[i, "in_service"]]
-    assert len(labels_seq) + 1 == len(log), (len(labels_seq), len(log))
     succ = [(lab, rec) for lab, rec in zip(labels_seq, log[:-1]) if not rec["raises"]]
     limcol = {t: ("max_loading_percent_nminus1" if "max_loading_percent_nminus1" in net[t].columns else "max_loading_percent") for t in tabs}
     lims = {t: [float(x) for x in net[t][limcol[t]].values] for t in tabs}
@@ -154,7 +188,7 @@ def _stub_case(ctx, rng):
     n0_ok = all(_same(res[t]["loading_percent"], log[-1]["vals"][t]) for t in tabs) and _same(res["bus"]["vm_pu"], log[-1]["vals"]["bus"])
     masked = sum(1 for l, r in succ for t in tabs for i, v in zip(r["ins"][t], r["vals"][t]) if (not i) or v != v)
     desc = {"cases": {t: [int(i) for i in v["index"]] for t, v in cases.items()},
-            "tables": {t: [int(i) for i in net[t].index] for t in tabs},
+            "tables": {t: [int(i) for i in net[t].index] for t in tabs}, "call": {k: repr(v) for k, v in callkw.items()},
             "log": [{"raises": r["raises"], "ins": r["ins"], "vals": {t: [None if v != v else v for v in vs] for t, vs in r["vals"].items()}} for r in log]}
     return term, impl, desc, restored, n0_ok, (len(succ) >= 2 and masked > 0), spec_bad
 
@@ -299,12 +333,14 @@ def run(ctx):
         term, impl, desc, restored, n0_ok, nontriv, spec_bad = _stub_case(ctx, rng)
         for w in spec_bad[:1]:
             ctx.violation('spec', w, desc)
-        terms.append(term)
-        impls.append(impl)
-        descs.append(desc)
+        if term is not None:
+            terms.append(term)
+            impls.append(impl)
+            descs.append(desc)
         ctx.case(desc, nontrivial=nontriv, sample={"input": desc, "impl": _js(impl)} if k < 2 else None)
         ctx.count("stub_cases")
         ctx.count("succ_cases_%d" % min(sum(1 for r in desc["log"][:-1] if not r["raises"]), 6))
+        ctx.count("call_kwargs_%s" % ",".join(sorted(desc.get("call", {}).keys())))
         if not restored:
             ctx.violation("spec", "in_service flags not restored after run_contingency", desc)
         if not n0_ok:
